@@ -162,6 +162,8 @@ def check_special(case):
 def mounts_(draw, tier):
     sub = trees.grow(draw, [2, 3, 5, 8], trees.names("plain"), st.just({"t": "f", "c": ""}), dir_ratio=(1, 2), max_depth=3)
     return {"kind": "mounts", "n": draw(st.sampled_from([2, 2, 3])), "sub": sub, "mode": draw(st.sampled_from(["", "bfs", "dfs"])),
+            # the mount points themselves on a fresh tmpfs: their inode numbers are as small as those inside the mounts
+            "outer": draw(st.booleans()), "pads": draw(st.sampled_from([0, 1, 2, 3, 4])),
             "roots": draw(st.sampled_from(["dot", "dot", "each", "each-reversed"])), "mx": draw(st.sampled_from([None, None, 2, 3]))}
 
 
@@ -176,20 +178,34 @@ def check_mounts(case):
         names = ["m%d" % i for i in range(1, case["n"] + 1)]
         script = ["set -e"]
         rels = []
+        if case.get("outer"):
+            # a run of directories with one file each: on a fresh tmpfs they get the inode numbers 2, 4, 6 ... - one of
+            # them coincides with the number of the covered mount point directory outside
+            for i in range(1, 6):
+                rels += [("x%d" % i, True), ("x%d/f" % i, False)]
         for rel, node, _ in trees.walk(case["sub"]):
-            rels.append(("/".join(rel), node["t"] == "d"))
+            if not ("/".join(rel)).startswith("x") or not case.get("outer"):
+                rels.append(("/".join(rel), node["t"] == "d"))
+        if case.get("outer"):
+            script.append('mount -t tmpfs none "$1"')
+            for i in range(case.get("pads", 0)):
+                script.append('mkdir "$1/pad%d"' % i)
         for m in names:
-            os.mkdir(os.path.join(base, m))
+            if case.get("outer"):
+                script.append('mkdir "$1/%s"' % m)
+            else:
+                os.mkdir(os.path.join(base, m))
             script.append('mount -t tmpfs none "$1/%s"' % m)
             for r, isdir in rels:
                 script.append(('mkdir -p "$1/%s/%s"' if isdir else ': > "$1/%s/%s"') % (m, r.replace('"', '')))
-        script.append('shift; exec "$@"')
+        script.append('cd "$1"; shift; exec "$@"')     # the working directory must be the mounted one, not the covered one
         wrap = ["unshare", "-m", "sh", "-c", "\n".join(script), "sh", base]
         opts = ((" maxdepth %d" % case["mx"]) if case["mx"] else "") + ((" " + case["mode"]) if case["mode"] else "")
+        pads = ["pad%d" % i for i in range(case.get("pads", 0))] if case.get("outer") else []
         if case["roots"] == "dot":
             q = "path from ." + opts + " into list"
             lvl0 = 1
-            want = collections.Counter("./" + m for m in names)
+            want = collections.Counter("./" + m for m in names + pads)
             pref = {m: "./" + m for m in names}
         else:
             order = names if case["roots"] == "each" else names[::-1]
